@@ -287,3 +287,20 @@ def local_closure(P, fn, which="bin", limit=40):
                 if g is not None and t[1].get("local"):
                     st.append(g)
     return out
+
+
+def looks_up_start(P, g):
+    """does local function g (or a function/closure it uses) look the constant "start" up in a map?"""
+    from symterm import SymFlow, strip
+    for f2 in local_closure(P, g):
+        F2 = SymFlow(f2)
+        try:
+            e2, _, _ = F2.run(0)
+        except RuntimeError:
+            continue
+        for b2, t2 in M.calls_in(f2):
+            d = t2[1].get("def") or ""
+            if b2 in e2 and d.endswith("::get") and "HashMap" in d:
+                if any(strip(a) == ("str", '"start"') for a in F2.call_args(e2[b2], b2)[1:]):
+                    return True
+    return False
